@@ -87,6 +87,9 @@ func pairCase(c map[string]interface{}) map[string]interface{} {
 				ops[k] = v
 			}
 		}
+		for k, v := range grpcOps(iters) {
+			ops[k] = v
+		}
 		a := ops[Str(c, "a")]
 		var bs []func(int)
 		if l, ok := c["b"].([]interface{}); ok {
